@@ -229,21 +229,21 @@ fn c12_reverse_agree_s200() {
 
 // verif: prop=C12 tier=quick cap=1200 rot=agree bound="model shape (1,1,0): all field values, all pointer values" fns="StandardPath::{try_reverse,try_encode_to_vec},StandardPathView::try_reverse" stubs="none"
 #[kani::proof]
-#[kani::unwind(14)]
+#[kani::unwind(48)]
 fn c12_reverse_agree_s110() {
     reverse_agree([1, 1, 0])
 }
 
 // verif: prop=C12 tier=thorough cap=3000 mem=24 bound="model shape (2,1,2)" fns="StandardPath::{try_reverse,try_encode_to_vec},StandardPathView::try_reverse" stubs="none"
 #[kani::proof]
-#[kani::unwind(14)]
+#[kani::unwind(48)]
 fn c12_reverse_agree_s212() {
     reverse_agree([2, 1, 2])
 }
 
 // verif: prop=C12 tier=thorough cap=3000 mem=24 bound="model shape (1,2,0)" fns="StandardPath::{try_reverse,try_encode_to_vec},StandardPathView::try_reverse" stubs="none"
 #[kani::proof]
-#[kani::unwind(14)]
+#[kani::unwind(48)]
 fn c12_reverse_agree_s120() {
     reverse_agree([1, 2, 0])
 }
